@@ -413,6 +413,165 @@ impl C07 {
     }
 }
 
+/// S9: a hand-built "committed square" of ANY width (odd ones too): row-major shares; row and column trees built with
+/// the protocol's leaf-namespace rule (first quadrant: the share's own namespace; elsewhere the parity namespace)
+struct Grid {
+    w: usize,
+    shares: Vec<Vec<u8>>,
+}
+
+impl Grid {
+    fn random(rng: &mut Rng, w: usize) -> Grid {
+        let k = w / 2;
+        // first quadrant: ONE namespace for all its shares (any order of rows/columns is then sorted)
+        let ns = d_common::user_ns(rng);
+        let shares = (0..w * w)
+            .map(|p| {
+                let (r, c) = (p / w, p % w);
+                if r < k && c < k {
+                    let mut s = ns.as_bytes().to_vec();
+                    s.extend(rng.bytes(SHARE - NS_SIZE));
+                    s
+                } else {
+                    rng.bytes(SHARE)
+                }
+            })
+            .collect();
+        Grid { w, shares }
+    }
+    fn at(&self, r: usize, c: usize) -> &Vec<u8> {
+        &self.shares[r * self.w + c]
+    }
+    fn ns_at(&self, r: usize, c: usize) -> Namespace {
+        let k = self.w / 2;
+        if r < k && c < k { Namespace::from_raw(&self.at(r, c)[..NS_SIZE]).unwrap() } else { Namespace::PARITY_SHARE }
+    }
+    fn pos(axis: AxisType, aidx: usize, i: usize) -> (usize, usize) {
+        match axis {
+            AxisType::Row => (aidx, i),
+            AxisType::Col => (i, aidx),
+        }
+    }
+    fn axis(&self, axis: AxisType, aidx: usize) -> Vec<Vec<u8>> {
+        (0..self.w).map(|i| { let (r, c) = Self::pos(axis, aidx, i); self.at(r, c).clone() }).collect()
+    }
+    fn nmt(&self, axis: AxisType, aidx: usize) -> Nmt {
+        let mut t = Nmt::default();
+        for i in 0..self.w {
+            let (r, c) = Self::pos(axis, aidx, i);
+            t.push_leaf(self.at(r, c), *self.ns_at(r, c)).unwrap();
+        }
+        t
+    }
+    fn dah(&self) -> DataAvailabilityHeader {
+        let rows = (0..self.w).map(|r| self.nmt(AxisType::Row, r).root()).collect();
+        let cols = (0..self.w).map(|c| self.nmt(AxisType::Col, c).root()).collect();
+        DataAvailabilityHeader::new_unchecked(rows, cols)
+    }
+    /// the honest share-with-proof of position `i` on axis `(axis, aidx)`, proven along `paxis`
+    fn share(&self, axis: AxisType, aidx: usize, i: usize, paxis: AxisType) -> RawBefpShare {
+        let (r, c) = Self::pos(axis, aidx, i);
+        let (mut nmt, idx) = match paxis {
+            AxisType::Row => (self.nmt(AxisType::Row, r), c),
+            AxisType::Col => (self.nmt(AxisType::Col, c), r),
+        };
+        let (share, proof) = nmt.get_index_with_proof(idx);
+        let proof: NamespaceProof = d_common::NmtNamespaceProof::PresenceProof { proof, ignore_max_ns: true }.into();
+        let mut data = self.ns_at(r, c).as_bytes().to_vec();
+        data.extend_from_slice(&share);
+        RawBefpShare { data, proof: Some(proof.into()), proof_axis: paxis as i32 }
+    }
+    fn line(&self, opname: &str, dah: &DataAvailabilityHeader, index: usize, axis: AxisType, shares: &[RawBefpShare]) -> String {
+        let rebuilt: Vec<Vec<u8>> = shares
+            .iter()
+            .map(|s| if s.proof.is_some() && s.data.len() == SHARE + NS_SIZE { s.data[NS_SIZE..].to_vec() } else { vec![] })
+            .collect();
+        let (rec, par) = codec_oracle(&rebuilt, self.w / 2);
+        let mut l = format!(
+            "{opname} hh={HH} {} height={HH} index={index} axis={} axisdata={} rec={rec} par={par}",
+            roots_fields(dah),
+            axis as i32,
+            hxl(&self.axis(axis, index)),
+        );
+        for s in shares {
+            l.push(' ');
+            l.push_str(&share_word(s));
+        }
+        l
+    }
+}
+
+impl C07 {
+    /// S9 (byzantine.rs:164): a DAH of ODD width passes `ExtendedHeader::validate` (`dah.validate_basic` only bounds the
+    /// width; C01 tag `ok/dah-odd-width`).  With `ods_width = w / 2` the axis has more parity than data shards, so
+    /// `leopard_codec::reconstruct` refuses although enough shares are proven: "befp is legit", `Ok(())`.  No axis of
+    /// odd length is a codeword, so the verdict is the sound one; an honest proof must validate.
+    fn gen_odd(&mut self, rng: &mut Rng, w: usize, out: &mut Emitter) {
+        let g = Grid::random(rng, w);
+        let dah = g.dah();
+        let k = w / 2;
+        for (axis, aidx, tag) in [
+            (AxisType::Row, 0usize, "odd-width/first-row"),
+            (AxisType::Row, w - 1, "odd-width/last-row"),
+            (AxisType::Col, 0, "odd-width/first-column"),
+            (AxisType::Col, w - 1, "odd-width/last-column"),
+        ] {
+            let other = if axis == AxisType::Row { AxisType::Col } else { AxisType::Row };
+            let same: Vec<RawBefpShare> = (0..w).map(|i| g.share(axis, aidx, i, axis)).collect();
+            let orth: Vec<RawBefpShare> = (0..w).map(|i| g.share(axis, aidx, i, other)).collect();
+            let keep = |all: &[RawBefpShare], mask: &[bool]| -> Vec<RawBefpShare> {
+                all.iter().zip(mask.iter()).map(|(s, m)| if *m { s.clone() } else { absent() }).collect()
+            };
+            let t = |s: &str| format!("{tag}/{s}");
+            out.op(g.line(self.opname, &dah, aidx, axis, &same), &t("honest/all-same-axis"), true);
+            out.op(g.line(self.opname, &dah, aidx, axis, &orth), &t("honest/all-orthogonal-axis"), true);
+            out.op(g.line(self.opname, &dah, aidx, axis, &keep(&same, &random_subset(rng, w, k))), &t("honest/floor-half"), true);
+            out.op(g.line(self.opname, &dah, aidx, axis, &keep(&orth, &random_subset(rng, w, k + 1))), &t("honest/ceil-half"), true);
+            out.op(g.line(self.opname, &dah, aidx, axis, &keep(&same, &random_subset(rng, w, k - 1))), &t("too-few"), true);
+            let mut v = same.clone();
+            v.swap(0, w - 1);
+            out.op(g.line(self.opname, &dah, aidx, axis, &v), &t("permuted/swap-two"), true);
+            let mut v = same.clone();
+            let p = NS_SIZE + rng.usize(64, SHARE - 1);
+            v[w / 2].data[p] ^= 1;
+            out.op(g.line(self.opname, &dah, aidx, axis, &v), &t("substituted/share-bytes"), true);
+        }
+    }
+
+    /// S9 (byzantine.rs:64): `validate` re-checks rows = columns of the DAH itself ("shouldn't ever happen as header
+    /// should be validated before"): an honest proof against a header whose DAH lost / gained a row or column root
+    fn gen_rows_ne_cols(&mut self, rng: &mut Rng, w: usize, out: &mut Emitter) {
+        let (eds, _) = d_common::gen_eds(rng, w);
+        let dah = DataAvailabilityHeader::from_eds(&eds);
+        let rows = dah.row_roots().to_vec();
+        let cols = dah.column_roots().to_vec();
+        let extra = NamespacedHash::from_raw(&d_common::random_node(rng)).unwrap();
+        let variants: Vec<(Vec<NamespacedHash>, Vec<NamespacedHash>, &str)> = vec![
+            (rows.clone(), cols[..w - 1].to_vec(), "dah-rows-ne-cols/one-column-root-less"),
+            (rows.clone(), [cols.clone(), vec![extra.clone()]].concat(), "dah-rows-ne-cols/one-column-root-more"),
+            (rows[..w - 1].to_vec(), cols.clone(), "dah-rows-ne-cols/one-row-root-less"),
+            ([rows.clone(), vec![extra]].concat(), cols.clone(), "dah-rows-ne-cols/one-row-root-more"),
+            (rows.clone(), vec![], "dah-rows-ne-cols/no-column-roots"),
+        ];
+        for (r, c, tag) in variants {
+            let bad = DataAvailabilityHeader::new_unchecked(r, c);
+            let cx = Ctx { opname: self.opname, eds: &eds, dah: &bad };
+            for (axis, aidx) in [(AxisType::Row, 0u16), (AxisType::Col, (w / 2) as u16)] {
+                // the line's ground truth (`axisdata`) must be an axis the header still commits to
+                let has_root = match axis {
+                    AxisType::Row => bad.row_root(aidx).is_some(),
+                    AxisType::Col => bad.column_root(aidx).is_some(),
+                };
+                if !has_root {
+                    continue;
+                }
+                let same: Vec<RawBefpShare> = (0..w as u16).map(|i| honest_share(&eds, axis, aidx, i, axis)).collect();
+                out.op(cx.line(HH, HH, aidx as u32, axis as i32, false, &same), tag, true);
+            }
+        }
+    }
+}
+
 impl Prop for C07 {
     fn id(&self) -> &'static str {
         "C07"
@@ -424,7 +583,10 @@ impl Prop for C07 {
          too few shares, permuted shares with their proofs (swap two, halves exchanged, rotated, swap inside the parity half), a \
          duplicated proven share, substituted share bytes / claimed namespace / shares of another axis / proof-axis label, wrong header \
          height, index, axis flag, share count.  Every line carries the ground truth about the committed axis, the real codec's parity \
-         of its first half, and what the real reconstruct/encode return on the rebuilt axis.  Non-trivial = every op; distinct = \
+         of its first half, and what the real reconstruct/encode return on the rebuilt axis.  S9: hand-built squares of ODD width 3, 5(, 7, 9) \
+         (more parity than data shards: the codec refuses to reconstruct although enough shares are proven; honest all / floor-half / \
+         ceil-half, too few, swapped, substituted) and an honest proof against a DAH that lost / gained a row or column root.  \
+         Non-trivial = every op; distinct = \
          distinct (op, result) lines."
     }
     fn gen_ops(&mut self, rng: &mut Rng, tier: Tier, out: &mut Emitter) {
@@ -435,6 +597,11 @@ impl Prop for C07 {
             }
         }
         self.gen_wide(rng, out);
+        // S9: the early exits of `validate` the squares above never reach
+        for &w in if tier == Tier::Thorough { &[3usize, 5, 7, 9][..] } else { &[3usize, 5][..] } {
+            self.gen_odd(rng, w, out);
+        }
+        self.gen_rows_ne_cols(rng, 4, out);
     }
     fn run(&mut self, line: &str) -> String {
         match opname(line) {
